@@ -185,7 +185,7 @@ def _derename(module_name: str, tree: ast.AST) -> None:
 
 # ``if not c: A else: B`` and ``if c: B else: A`` are the same program.  Rules that read the arms of a conditional (which arm
 # handles which case, which guard protects which statement) see one canonical form: a negated test with a plain ``else`` is
-# flipped.  ``elif`` chains are left alone.
+# flipped (also when the ``else`` holds a further ``if``: ``if not c: A elif d: B`` reads ``if c: (if d: B) else: A``).
 
 def _normalise_ifs(tree: ast.AST) -> None:
     for n in ast.walk(tree):
@@ -195,7 +195,6 @@ def _normalise_ifs(tree: ast.AST) -> None:
             isinstance(n.test, ast.UnaryOp)
             and isinstance(n.test.op, ast.Not)
             and n.orelse
-            and not (len(n.orelse) == 1 and isinstance(n.orelse[0], ast.If))
         ):
             n.test = n.test.operand
             n.body, n.orelse = n.orelse, n.body
